@@ -717,7 +717,9 @@ fn apply(root: &mut Relations, model: &mut Model, handles: &mut Handles, f: &[&s
         ["ins", i, way, t] => {
             let i = idx(i).unwrap_or(usize::MAX);
             let o = entry_operand(root, model, handles, way, t);
-            if matches!(o, Opnd::Skip) || i > n {
+            // beyond the end it appends (`entries().nth(idx)` is None): executed, not skipped
+            let _ = n;
+            if matches!(o, Opnd::Skip) || i > 1000 {
                 return Step::Skip;
             }
             let (rels, e) = match o {
@@ -1498,6 +1500,8 @@ fn op_pool() -> Vec<String> {
         format!("addp.f.1.0.{}", x("nodoc")),
         // LIVE operands (after seeded change C11-r8m1 and audit finding D1): a handle that is still
         // part of this field (`l`) or of another one (`o`) is copied, never moved
+        format!("ins.7.p.{}", x("n")),
+        "ins.9.l.0".into(),
         "ins.0.l.1".into(),
         "ins.1.l.0".into(),
         "ins.0.l.2".into(),
